@@ -32,11 +32,11 @@ func init() {
 }
 
 type scanOpts struct {
-	procs                       int
-	skipN, skipW, skipR         bool
-	fN                          func(*osm.Node) bool
-	fW                          func(*osm.Way) bool
-	fR                          func(*osm.Relation) bool
+	procs               int
+	skipN, skipW, skipR bool
+	fN                  func(*osm.Node) bool
+	fW                  func(*osm.Way) bool
+	fR                  func(*osm.Relation) bool
 }
 
 // pbfScan runs a scanner over data and returns the header, the objects and the final error.
